@@ -801,6 +801,17 @@ func vArg_any() interface{} {
 	return struct{ A int }{1}
 }
 
+// vArg_anyField: a value for Fields(). There a json.RawMessage is a caller-supplied pre-encoded
+// fragment that is spliced in verbatim (like RawJSON), so only valid single-line fragments are
+// inside the property; everything else is as in vArg_any.
+func vArg_anyField() interface{} {
+	v := vArg_any()
+	if _, raw := v.(json.RawMessage); raw {
+		return json.RawMessage(`{"a":[1,"x"]}`)
+	}
+	return v
+}
+
 // vAnyArmG picks arm k of appendFieldList and varies only the global settings it depends on.
 func vAnyArmG(k int) interface{} {
 	switch {
@@ -822,17 +833,17 @@ func vArgObjNonNil() LogObjectMarshaler { return &vUserObj{n: zzverif.Choice(3)}
 func vArgFields() interface{} {
 	switch zzverif.Choice(7) {
 	case 0:
-		return []interface{}{vArgKeySym(), vArg_any()}
+		return []interface{}{vArgKeySym(), vArg_anyField()}
 	case 1:
-		return []interface{}{"a", vArg_any(), "b", 1}
+		return []interface{}{"a", vArg_anyField(), "b", 1}
 	case 2:
 		return []interface{}{"a", 1, "b"} // odd length: last dropped
 	case 3:
 		return []interface{}{7, "notakey", "k", true} // non-string key skipped
 	case 4:
-		return map[string]interface{}{vArgKey(): vArg_any()}
+		return map[string]interface{}{vArgKey(): vArg_anyField()}
 	case 5:
-		return map[string]interface{}{"b": 1, "a": vArg_any()}
+		return map[string]interface{}{"b": 1, "a": vArg_anyField()}
 	}
 	return 42 // neither slice nor map: ignored
 }
